@@ -1240,20 +1240,23 @@ func main() {
 				}
 			}
 			full := `{"Bad", "Good", "Query", "Tick", "Unban", "CleanF", "CleanB", "MUnban"}`
-			lists := `{"Blk", "BlkP", "MUnbl", "Wl", "UnWl", "Query", "Tick", "Unbl", "CleanL", "Reload", "Anon", "Bad"}`
+			lists := `{"Blk", "BlkP", "BlkO", "MUnbl", "Wl", "WlO", "UnWl", "Query", "Tick", "Unbl", "CleanL", "Reload"}`
+			listsHs := `{"Blk", "BlkP", "MUnbl", "Wl", "Query", "Tick", "Unbl", "Reload", "Anon", "Bad"}` // lists in front of the other gates
 			rate := mcJob("mc:rate", one, `{"Anon", "Bad", "Tick", "Idle", "Flood"}`, "TRUE", fixAll, strict, tm{2, 3, 2, 2, 9})
 			rate.Consts["MAXADM"] = "10"
 			return []fw.TLCJob{
 				rate,
-				mcJob("mc:lists:head", one, lists, "TRUE", fixHead, "BanHolds BlacklistHoldsOrKnown", tm{2, 3, 2, 2, 4}),
+				mcJob("mc:lists:head", one, lists, "TRUE", fixHead, "BanHolds BlacklistHoldsOrKnown", tm{2, 3, 2, 2, 5}),
+				mcJob("mc:lists+hs:as-is", one, listsHs, "TRUE", "{}", asIs, tm{2, 3, 2, 2, 3}),
+				mcJob("mc:lists+hs:repaired", one, listsHs, "TRUE", fixAll, strict, tm{2, 3, 2, 2, 3}),
 				mcJob("mc:race-full:as-is", two, full, "FALSE", "{}", asIs, tm{2, 3, 2, 2, 4}),
 				mcJob("mc:race-full:repaired", two, full, "FALSE", fixAll, strict, tm{2, 3, 2, 2, 4}),
 				mcJob("mc:race-ban3:as-is", two, race, "FALSE", "{}", asIs, tm{2, 3, 2, 3, 6}),
 				mcJob("mc:race-ban3:repaired", two, race, "FALSE", fixAll, strict, tm{2, 3, 2, 3, 6}),
 				mcJob("mc:race-thr3:as-is", two, race, "FALSE", "{}", asIs, tm{3, 4, 3, 2, 5}),
 				mcJob("mc:race-thr3:repaired", two, race, "FALSE", fixAll, strict, tm{3, 4, 3, 2, 5}),
-				mcJob("mc:lists:as-is", one, lists, "TRUE", "{}", asIs, tm{2, 3, 2, 2, 4}),
-				mcJob("mc:lists:repaired", one, lists, "TRUE", fixAll, strict, tm{2, 3, 2, 2, 4}),
+				mcJob("mc:lists:as-is", one, lists, "TRUE", "{}", asIs, tm{2, 3, 2, 2, 5}),
+				mcJob("mc:lists:repaired", one, lists, "TRUE", fixAll, strict, tm{2, 3, 2, 2, 5}),
 			}
 		},
 		GenJobs: func(env *fw.Env) []fw.TLCJob {
